@@ -399,7 +399,7 @@ theorem inv_step (c : Cfg) (w : Wheel) (h : Hist) (op : Op) (i : Inv c w h) :
     · -- accepted with id = nextId
       have hpos := i.pos
       have hne : w.nextId ≠ 0 := by omega
-      obtain ⟨l, b, he, hl⟩ := insertEntry_spec c { w with nextId := w.nextId + 1 } w.nextId (now + d * nsPerMs) d
+      obtain ⟨l, b, he, hl⟩ := insertEntry_spec c { w with nextId := w.nextId + 1 } w.nextId (deadlineAfter now d) d
       simp only [he]
       refine ⟨?_, ?_, ?_, ?_, ?_, i.curLen, ?_, i.acc⟩
       · have hp := i.perm
@@ -471,7 +471,7 @@ theorem inv_step (c : Cfg) (w : Wheel) (h : Hist) (op : Op) (i : Inv c w h) :
              by rw [lastDeadline_snoc]; simpa [deadlineUpd] using i.dl, i.curLen, i.lvl, i.acc⟩
     · rename_i x rest hu
       obtain ⟨hx, hxm, hp, hsub⟩ := unlink_some hu
-      obtain ⟨l, b, he, hl⟩ := insertEntry_spec c { w with entries := rest } id (now + d * nsPerMs) d
+      obtain ⟨l, b, he, hl⟩ := insertEntry_spec c { w with entries := rest } id (deadlineAfter now d) d
       simp only [he]
       have hnd : (ids w).Nodup := (List.nodup_append.mp i.ids_nodup).1
       have hp2 := hp.map (·.id)
